@@ -391,6 +391,14 @@ def drive_c04(ctx):
 # ---------------------------------------------------------------------------
 # C14 / C17  static traces: the generated catalogue, reply codes, constants
 # ---------------------------------------------------------------------------
+def _amqp_type(cls, a):
+    """the wire type of an argument through the PUBLIC accessor only"""
+    try:
+        return str(cls.amqp_type(a))
+    except Exception:  # noqa
+        return '<missing>'
+
+
 def doc_defaults(cls):
     """{param: token} parsed from the class docstring ('- Default: ``X``')"""
     import re
@@ -516,13 +524,13 @@ def drive_c14(ctx):
         slots = [x if isinstance(x, str) else repr(x) for x in cls.__slots__]
         rec.add('CatalogEntry', P, nt=True, second_pass=True, sigx=str(cls.name), key=as_int(key), name=str(cls.name),
                 frame_id=as_int(cls.frame_id), index=as_int(cls.index), slots=slots,
-                types=[str(getattr(cls, '_' + a, '<missing>')) for a in slots], sync=bool(cls.synchronous),
+                types=[_amqp_type(cls, a) for a in slots], sync=bool(cls.synchronous),
                 sync_is_bool=isinstance(cls.synchronous, bool), responses=[str(x) for x in cls.valid_responses],
                 defaults=[], docs=[], attributes=[x if isinstance(x, str) else repr(x) for x in cls.attributes()])
     slots = list(pr.__slots__)
     o = pr()
     rec.add('PropertiesEntry', P, nt=True, second_pass=True, name=str(pr.name), frame_id=as_int(pr.frame_id), index=as_int(pr.index),
-            slots=slots, types=[str(getattr(pr, '_' + a, '<missing>')) for a in slots],
+            slots=slots, types=[_amqp_type(pr, a) for a in slots],
             flags=[as_int(pr.flags.get(a, -1)) for a in slots], nflags=len(pr.flags),
             defaults=[abstract(getattr(o, a, None)) for a in slots])
     # the RPC metadata in use: a client that decides ONLY from the class attributes (Rpc.tla)
